@@ -52,6 +52,9 @@ def oracle(case):
     for k in range(n, n + 3):
         if out["tup"][k] is not None:
             return "beyond-n", f"get_var_tuple_index({k}) = {out['tup'][k]} with n = {n}"
+    if out.get("tup_fresh") is not None and out["tup_fresh"] != out["tup"][:2]:
+        return "inverse", (f"get_var_tuple_index as the first query on a fresh object returns {out['tup_fresh']} for indices 0, 1; "
+                           f"after enumeration it returns {out['tup'][:2]}")
     fixed = dict(out["fixed"])
     if len(fixed) != len(out["fixed"]):
         return "fixed", "fixed_values lists a key twice"
